@@ -7,6 +7,7 @@ import (
 	"math"
 	"reflect"
 	"sort"
+	"sync"
 
 	"github.com/bmeg/grip/engine/logic"
 	"github.com/bmeg/grip/gdbi"
@@ -918,20 +919,46 @@ func (b both) Process(ctx context.Context, man gdbi.Manager, in gdbi.InPipe, out
 		for i, p := range procs {
 			p.Process(ctx, man, chanIn[i], chanOut[i])
 		}
-		for t := range in {
-			if t.IsSignal() {
-				out <- t
-				continue
+		// Forward the input from a goroutine of its own and drain every branch while it
+		// is being fed: a branch only holds a bounded number of travelers, so feeding all
+		// of the input before reading any output blocks for ever on large inputs.
+		// The first branch is passed on directly; the results of the others are held back
+		// until it has finished, which keeps the output order (in-results, then out-results).
+		var wg sync.WaitGroup
+		wg.Add(1)
+		go func() {
+			defer wg.Done()
+			for t := range in {
+				if t.IsSignal() {
+					out <- t
+					continue
+				}
+				for _, ch := range chanIn {
+					ch <- t
+				}
 			}
 			for _, ch := range chanIn {
-				ch <- t
+				close(ch)
+			}
+		}()
+		held := make([][]gdbi.Traveler, len(procs))
+		for i := 1; i < len(procs); i++ {
+			wg.Add(1)
+			go func(i int) {
+				defer wg.Done()
+				for c := range chanOut[i] {
+					held[i] = append(held[i], c)
+				}
+			}(i)
+		}
+		if len(procs) > 0 {
+			for c := range chanOut[0] {
+				out <- c
 			}
 		}
-		for _, ch := range chanIn {
-			close(ch)
-		}
-		for i := range procs {
-			for c := range chanOut[i] {
+		wg.Wait()
+		for i := 1; i < len(procs); i++ {
+			for _, c := range held[i] {
 				out <- c
 			}
 		}
